@@ -95,6 +95,7 @@ func (g *Engine) Start() error {
 	// Start TCP/Unix listener pollers.
 	for _, l := range g.listeners {
 		g.Add(1)
+		g.wgListener.Add(1)
 		go l.start()
 	}
 
